@@ -20,7 +20,8 @@ from vk.ddmin import minimise_text
 LEVEL = 'exploration'
 RULE = ('inputs: as C01 (corpus, derivations in 5 layouts, operator x operand-class products, member/call/new '
         'products, keyword x following-token products, statement-kind x container products, sequences of two '
-        'statements of every kind) x {drop_semi off, on}; a case = (text, drop_semi); non-trivial = the minifier '
+        'statements of every kind) x {drop_semi off, on}; every text that has a comment also as the tree of a '
+        'comment-capturing parser (plus fifteen comment placements around empty bodies and restricted keywords); a case = (text, drop_semi); non-trivial = the minifier '
         'removed at least one separator between two tokens (output shorter than the single-blank rendering) ; '
         'distinct by (text, flag).')
 ASSUMPTIONS = ['inputs the real parser rejects are skipped; the reference re-read applies to inputs refjs reads as the '
